@@ -1252,6 +1252,13 @@ def interp_stage(ctx):
     for _ in range(n):
         vs = VARS[:3]
         c = gen_com(rng, rng.randint(0, 4), vs)
+        r = rng.random()
+        if r < 0.06:      # ill-sorted on purpose: the interpreter must get stuck exactly where the reference does
+            c = ("seq", c, ("cond", gen_arith(rng, 1, vs), ("skip",), ("skip",)))
+        elif r < 0.12:
+            c = ("seq", ("assign", rng.choice(vs), gen_cond(rng, 1, vs)), c)
+        elif r < 0.16:
+            c = ("while", gen_arith(rng, 1, vs), TRUE, c)
         st = {v: rng.randint(-3, 3) for v in vs}
         try:
             f = run_ref(c, dict(st), [2000])
